@@ -86,7 +86,9 @@ impl Prop for C04 {
                         if microlp && crate::props::c05::hang_prone(case, &truth) {
                             sig.push_str(match truth {
                                 crate::oracle::rat::Verdict::Unbounded => ":mixed-integer+unbounded+free-var",
-                                _ => ":unbounded-optimal-face+free-var",
+                                crate::oracle::rat::Verdict::Optimal { .. } => ":unbounded-optimal-face+free-var",
+                                // a solution for a model without any: not an answer the recorded defect gives
+                                crate::oracle::rat::Verdict::Infeasible => "",
                             });
                         } else if matches!(w, crate::props::solvers::Which::Clarabel) {
                             match &truth {
